@@ -792,5 +792,5 @@ def enum_oracle(case, stats):
 
 PARTS = [
     EnumPart("bounded-exhaustive", enum_cases, enum_oracle, chunk=100),
-    MachinePart("machine", make_machine, replay, runs={"quick": 1600, "thorough": 12000}, steps={"quick": 12, "thorough": 30}),
+    MachinePart("machine", make_machine, replay, runs={"quick": 2400, "thorough": 16000}, steps={"quick": 12, "thorough": 30}),
 ]
